@@ -120,6 +120,15 @@ def run(ctx, model):
                     and st.targets[0].elts[1] is node:
                 if is_cls_call(st.value):
                     ok = True
+                elif isinstance(st.value, ast.Name):
+                    # `r = T.get(text); if r is None: r = classify(text); T[text] = r` - the pair comes from the classifier,
+                    # possibly through a memo of it (whether that memo is exact is C20's business)
+                    binds = [a.value for a in ast.walk(init.node) if isinstance(a, ast.Assign) and
+                             any(isinstance(t, ast.Name) and t.id == st.value.id for t in a.targets)]
+                    lookups = [b for b in binds if isinstance(b, ast.Subscript) or
+                               (isinstance(b, ast.Call) and isinstance(b.func, ast.Attribute) and b.func.attr == "get")]
+                    others = [b for b in binds if b not in lookups]
+                    ok = bool(others) and all(is_cls_call(b) for b in others)
                 elif isinstance(st.value, ast.Tuple) and len(st.value.elts) == 2:
                     # `r = classify(text); self.t, self.flag = r.type, r.repeatable` (or r[0], r[1])
                     src = st.value.elts[1]
